@@ -608,6 +608,82 @@ struct QueueProg : Program
     }
 };
 
+// streaming: one producer, one consumer that keeps up, items as large as one storage node of the underlying
+// container - every push and every pop then changes the container's bookkeeping (node map, first/last node), not just
+// one end of a shared node, so "push and pop never run inside the container at the same time" is observable
+struct BigItem
+{
+    int v;
+    char pad[700];
+    BigItem(int x = -1) : v(x) { memset(pad, x & 0x7f, sizeof pad); }
+    bool intact() const
+    {
+        for (char c : pad)
+            if (c != (char)(v & 0x7f))
+                return false;
+        return true;
+    }
+};
+struct QueueStreamProg : Program
+{
+    static const int N = 7; // more pushes than the container's initial node map holds behind its start
+    std::unique_ptr<igris::safe_queue<BigItem>> q;
+    std::atomic<int> pushed{0};
+    std::atomic<int> got[N];
+    QueueStreamProg()
+    {
+        name = "Q_stream";
+        for (auto &g : got)
+            g = -2;
+    }
+    void setup() override
+    {
+        q.reset(new igris::safe_queue<BigItem>);
+        sched::spawn(
+            [this] {
+                for (int i = 0; i < N; i++)
+                {
+                    q->push(BigItem(i));
+                    pushed++;
+                }
+                log.returned[0] = 1;
+            },
+            "producer");
+        sched::spawn(
+            [this] {
+                for (int i = 0; i < N; i++)
+                {
+                    sched::wait_until([this, i] { return pushed.load() > i; }, "an unclaimed item exists");
+                    BigItem b = q->pop();
+                    got[i] = b.intact() ? b.v : -3;
+                }
+                log.returned[1] = 1;
+            },
+            "consumer");
+    }
+    void check(const sched::Result &r) override
+    {
+        report_log();
+        if (r.deadlock)
+        {
+            mc::violation("C20." + name + ".deadlock", "blocked forever: %s", r.trace.c_str());
+            return;
+        }
+        std::string oc;
+        bool ok = true;
+        for (int i = 0; i < N; i++)
+        {
+            oc += mc::fmt("%d,", got[i].load());
+            ok = ok && got[i] == i;
+        }
+        if (!ok)
+            mc::violation("C20." + name + ".lost_or_duplicated", "one producer pushed 0..%d, the consumer popped {%s} (-3 = garbled item)", N - 1, oc.c_str());
+        if (q->size() != 0)
+            mc::violation("C20." + name + ".size", "queue not empty after all pops");
+        mc::outcome(name + " " + oc);
+    }
+};
+
 // size() observed concurrently with pushes and pops: it must be one of the values the queue really had
 struct QueueSizeProg : Program
 {
@@ -748,6 +824,7 @@ MC_INIT
     // ~18 000 executions), thorough only - one preemption already costs millions of executions
     add_one(WaitProg(7).name, [] { return new WaitProg(7); }, 0, 0, true);
     add_prog("Q_size", [] { return new QueueSizeProg(); }, 2, 3);
+    add_prog("Q_stream", [] { return new QueueStreamProg(); }, 2, 3);
     for (int c = 1; c <= 2; c++)
         add_prog(QueueProg(c).name, [c] { return new QueueProg(c); }, c == 1 ? 2 : 1, c == 1 ? 3 : 2);
 }
